@@ -638,6 +638,29 @@ def c01(ctx):
     for c in random_streams(rng, 300 if quick else 5000):
         cases.append(c)
         meta.append(("random", None, None))
+    # two fields of one message at once: every pair of the fixed-width fields of the smallest Produce request and Fetch
+    # response that carry a record batch, each set to 0, all ones and a small value (a flag that selects a code path
+    # together with a length that the path does not expect)
+    withrec = sorted((x for x in gen(ctx) if any(".headers" in t["p"] for e in x["exch"] for t in e["req"] + e["resp"])),
+                     key=lambda x: len(x["client"]) + len(x["server"]))
+    for want, side in (("Produce", "c"), ("Fetch", "s")):
+        conv = next((x for x in withrec if x["exch"][0]["name"] == want), None)
+        if conv is None:
+            continue
+        ex, at = conv["exch"][0], (conv["req_at"][0] if side == "c" else conv["resp_at"][0])
+        toks = [t for t in (ex["req"] if side == "c" else ex["resp"]) if t["w"] in (1, 2, 4, 8) and t["k"] in ("i", "s", "y", "n", "b")]
+        data0 = bytes.fromhex(conv["client" if side == "c" else "server"])
+        pairs = [(a, b) for i, a in enumerate(toks) for b in toks[i + 1:]]
+        if quick and len(pairs) > 400:
+            pairs = rng.sample(pairs, 400)
+        for a, b in pairs:
+            for va in (0, -1, 7):
+                for vb in (0, -1, 7):
+                    d = bytearray(data0)
+                    for t, v in ((a, va), (b, vb)):
+                        d[at + t["o"]:at + t["o"] + t["w"]] = (v % (1 << (8 * t["w"]))).to_bytes(t["w"], "big")
+                    cases.append(case(d.hex(), conv["server"]) if side == "c" else case(conv["client"], d.hex()))
+                    meta.append(("field-pair", None, None))
     res = run(ctx, cases)
     nviol = 0
     for c, r, (kind, conv, k) in zip(cases, res, meta):
@@ -668,7 +691,8 @@ def c01(ctx):
                         kind, k, exp, got), "vh-kafka run", conversation=conv["name"]))
                 nviol += 1
     ctx.sample({"kind": "kafka-prefix", "conversation": convs[0]["name"], "cases": sum(1 for m in meta if m[0].startswith("prefix"))})
-    report_K(ctx, "c01", cases, res, sample=700 if quick else 6000)
+    nk = [i for i, m in enumerate(meta) if m[0] != "field-pair"] + [i for i, m in enumerate(meta) if m[0] == "field-pair"][::15]
+    report_K(ctx, "c01", [cases[i] for i in nk], [res[i] for i in nk], sample=700 if quick else 6000)
     return nviol
 
 
@@ -764,6 +788,21 @@ def c02(ctx):
                     tail = rng.choice([0, 1, 2])
                     cases.append(case(tc, ts, tail=tail))
                     meta.append((conv["name"], f[5] + " (stream cut after the field)", v, tail))
+    # two declared sizes at once (an enclosing and an enclosed one, both far beyond the bytes present): every pair of the
+    # 32-bit length / count fields of the conversations that carry record batches
+    for conv in convs[-2:]:
+        f4 = [f for f in length_fields(conv) if f[3] == "fix" and f[2] == 4]
+        prs = [(a, b) for i, a in enumerate(f4) for b in f4[i + 1:] if a[0] == b[0]]
+        if len(prs) > (120 if quick else 2000):
+            prs = rng.sample(prs, 120 if quick else 2000)
+        for a, b in prs:
+            if a[1] > b[1]:
+                a, b = b, a
+            c1, s1 = substitute(conv, a, INT32_MAX)
+            conv2 = dict(conv, client=c1, server=s1)
+            c2, s2 = substitute(conv2, b, 1 << 28)
+            cases.append(case(c2, s2, tail=rng.choice([0, 1, 2])))
+            meta.append((conv["name"], a[5] + " + " + b[5], INT32_MAX, 0))
     n_model = len(cases)        # the cases from here on are too large for the model run
     # a large message made of nested over-declared arrays and one of cap size
     big = bytes.fromhex(convs[0]["client"])
